@@ -298,6 +298,17 @@ pub fn run(ctx: &Ctx, mode: Mode) -> Shard {
         }
         i += 1;
     }
+    // ---- 5. directed: one commit that extends the file by more than one allocation step
+    let mut i = 0usize;
+    while let Some(h) = shape::big_commit_history(ps, i) {
+        if mode != Mode::C07 && (i as u64 + 9) % ctx.nshards == ctx.shard && (ctx.thorough() || i < 4) {
+            let path = scratch.fresh("b");
+            let out = exec::run_history(&h, &cfg, &path);
+            let _ = std::fs::remove_file(&path);
+            absorb(&mut shard, ctx, mode, &h, &out, &mut total, "big-commit");
+        }
+        i += 1;
+    }
     finish(&mut shard, &total);
     shard
 }
